@@ -40,6 +40,10 @@ struct Root {
     static const rtosc::Ports ports;
 };
 
+// the library's own way to get a table with a default handler: ClonePorts with a
+// "*" entry (callbacks: the Leaf ones again; default: default_reply())
+struct Cloned { static const rtosc::ClonePorts ports; };
+
 // RtData whose terminal reply/broadcast/chain store the last message in a
 // fixed member buffer (what an application's RT side does before handing the
 // message to a ThreadLink); everything else is the base class' forwarding.
